@@ -127,9 +127,9 @@ int main(int argc, char** argv) {
         GGeom B;
         int mode = (int) r.below(100);
         if (mode < 4) B = A;
-        else if (mode < 10 && gen.holeSwallower(A, B)) {}
-        else if (mode < 20) B = gen.partialCover(A, true);
-        else { if (mode < 30) gen.setPartnerInterior(A); B = gen.geom(3, true, true); }
+        else if (mode < 14 && gen.holeSwallower(A, B)) {}
+        else if (mode < 26) B = gen.partialCover(A, true);
+        else { if (mode < 36) gen.setPartnerInterior(A); B = gen.geom(3, true, true); }
         if (!wantRect && r.chance(50)) std::swap(A, B);
         // arbitrary-double similarity: rotation (none for rectangle cases half of the time), scale 1e-3..1e9, offset
         DX t; double mag = std::pow(10.0, r.range(-3, 9) + r.unit()); double th = (wantRect || r.chance(25)) ? 0.0 : r.unit() * 6.283185307179586;
